@@ -33,6 +33,8 @@ def gen_dag_config(rng, n=None):
         cands = [q for q in names[:i] if not q.startswith(p + "/") and not p.startswith(q + "/")]
         k = rng.choice([0, 0, 1, 1, 2]) if cands else 0
         if k: t["uses"] = rng.sample(cands, min(k, len(cands)))
+        pref = [q for q in cands if p.startswith(q)]          # e.g. t12 uses t1, core-utils uses core
+        if pref and rng.random() < 0.7: t["uses"] = sorted(set(t.get("uses", []) + [rng.choice(pref)]))
         targets.append(t)
     rng.shuffle(targets)
     return {"targets": targets, "sequences": {"ci": ["build", "test"], "all": ["lint", "build"]}}
@@ -182,10 +184,12 @@ def evaluate(ctx, focus, case, cfg, rr, rc, out, err, traces, expected_cmds, sel
             for p2, b in recs:
                 if p1 < p2 and not (a.get("end_ns") and a["end_ns"] < b["start_ns"]):
                     problems.append({"started_before_earlier_position_exited": [b["command"], b["target"]], "earlier": [a["command"], a["target"]]})
-        # direct dependencies inside the run
+        # direct dependencies inside the run: the edges come from the MODEL (Model.Index.adj_of), not from the implementation
         r = ctx.harness.call(fn="index_edges", cfg=G.cfg_json(cfg), mk=[t["path"] for t in cfg["targets"]])
-        if "ok" in r and mode != "explicit":
-            labels, adj = r["ok"]["labels"], r["ok"]["adj"]
+        import props.c10 as c10
+        mv = ctx.model.call("C10", G.cfg_val(cfg), c10.enc_impl(r))
+        if mv[1][0] == 1 and mode != "explicit":
+            labels = [vlib.dstr(x) for x in mv[1][1][0]]; adj = mv[1][1][1]
             for cmd, _ in res:
                 for i, row in enumerate(adj):
                     for j in row:
